@@ -209,8 +209,11 @@ pub fn scenario(idx: usize, seed: u64) -> ScenarioResult {
                 }
             });
             let want = *c == cfgs[d].0;
-            let r = nodes[d].net.connect(la).await;
-            trace.push(format!("{:?} dials an adversarial listener with a certificate for {c:?}: ok={} (model {want})", cfgs[d], r.is_ok()));
+            // both dial paths: plain, and naming the identity the listener really holds (a correct
+            // key does not make a certificate for another network acceptable)
+            let pinned = rng.gen_bool(0.5);
+            let r = if pinned { nodes[d].net.connect_with_peer_id(la, y).await } else { nodes[d].net.connect(la).await };
+            trace.push(format!("{:?} dials ({}) an adversarial listener with a certificate for {c:?}: ok={} (model {want})", cfgs[d], if pinned { "expecting its identity" } else { "plain" }, r.is_ok()));
             if r.is_ok() != want {
                 problems.push(format!(
                     "dialer {:?} -> listener presenting a certificate for {c:?}: connect ok={}, the model says {want}",
